@@ -21,7 +21,9 @@ def run():
     os.makedirs(os.path.join(work, "src"))
     open(os.path.join(work, "Cargo.toml"), "w").write(open(os.path.join(src, "Cargo.toml.in")).read().replace("@REPO@", repo))
     shutil.copy(os.path.join(src, "src/lib.rs"), os.path.join(work, "src/lib.rs"))
-    shutil.copy(os.path.join(repo, "Cargo.lock"), os.path.join(work, "Cargo.lock"))
+    # the repository ignores Cargo.lock: a scratch worktree of it (self-test harness) has none until cargo has resolved one there
+    if os.path.exists(os.path.join(repo, "Cargo.lock")):
+        shutil.copy(os.path.join(repo, "Cargo.lock"), os.path.join(work, "Cargo.lock"))
     env = dict(os.environ, CARGO_NET_OFFLINE="true", CARGO_TARGET_DIR=os.path.join(F.CACHE, "target-W" + alt), RUSTFLAGS="-Awarnings", RUSTDOCFLAGS="-Awarnings")
     env.pop("RUSTUP_TOOLCHAIN", None)
     r = subprocess.run(["cargo", "+nightly", "test", "--doc", "--offline", "--", "--test-threads", "8"], cwd=work, env=env,
